@@ -795,7 +795,80 @@ class MixedCausal(Op):
                  "close")]
 
 
-OPS = [MixedCausal(), Coords(), AffineCoords(), Distance(), OriginTo(), TvOriginTo(), UnitTangent(),
+class SimplexSkeleton(Op):
+    name = "simplex_skeleton"
+
+    def params(self, draw):
+        return dict(n=draw(st.integers(2, 3)), k=draw(st.integers(1, 3)),
+                    via=draw(st.sampled_from(["skeleton", "faces", "edges"])))
+
+    def unit(self, draw, params):
+        # a triangle (3 vertices) of P^n given by homogeneous rows
+        return [[1.0 + 0.1 * j] + draw(gen.klein_point(params["n"], rmax=0.9))
+                for j in range(3)]
+
+    def run(self, params, units, shape, ctx=None):
+        R = _arr(units, shape)
+        S = P.Simplex(R.copy())
+        if params["via"] == "faces":
+            F = S.faces()
+            k = 2
+        elif params["via"] == "edges":
+            F = S.edges()
+            k = 2
+        else:
+            k = min(params["k"], 3)
+            F = S.skeleton(k)
+        D = np.array(F.proj_data)
+        if ctx is not None:
+            import itertools as _it
+            idx = list(_it.combinations(range(3), k))
+            ctx.check(D.shape == tuple(shape) + (len(idx), k, params["n"] + 1),
+                      "skeleton: one sub-simplex per k-subset of the vertices, after the "
+                      "object's own axes", got=D.shape,
+                      want=tuple(shape) + (len(idx), k, params["n"] + 1))
+            ctx.close("skeleton: face j holds the vertices of the j-th subset", D,
+                      R[..., idx, :], rtol=0, atol=0)
+        return [("shape", tuple(F.shape), "shape"), ("faces", D, "close")]
+
+
+class BoundaryArcOps(Op):
+    name = "boundary_arc"
+
+    def params(self, draw):
+        return dict(flip=draw(st.booleans()), degrees=draw(st.booleans()))
+
+    def unit(self, draw, params):
+        a = draw(fl(-3.0, 3.0))
+        return dict(a=a, b=a + draw(st.one_of(fl(0.2, 2.9), fl(-2.9, -0.2))))
+
+    def run(self, params, units, shape, ctx=None):
+        A = np.array([u["a"] for u in units], dtype=float).reshape(shape)
+        B = np.array([u["b"] for u in units], dtype=float).reshape(shape)
+        ip = lambda t: np.stack([np.ones_like(t), np.cos(t), np.sin(t)], axis=-1)
+        if len(shape):
+            # (composite arcs: from a list of unit arcs)
+            flat = [H.BoundaryArc(ip(a_), ip(b_)) for a_, b_ in zip(A.ravel(), B.ravel())]
+            arc = H.BoundaryArc(flat).reshape(tuple(shape))
+        else:
+            arc = H.BoundaryArc(ip(A), ip(B))
+        if params["flip"]:
+            arc.flip_orientation()
+        c, r, th = arc.circle_parameters(degrees=params["degrees"])
+        th = np.array(th, dtype=float)
+        if ctx is not None:
+            per = 360.0 if params["degrees"] else 2 * np.pi
+            want = np.stack([B, A] if params["flip"] else [A, B], axis=-1) * per / (2 * np.pi)
+            d = np.abs((th - want + per / 2) % per - per / 2)
+            ctx.small("boundary arc: from the first endpoint counter-clockwise to the second "
+                      "(the other way round after flip_orientation)", d, 1e-9 * per)
+        return [("shape", tuple(arc.shape), "shape"),
+                ("thetas mod period", np.stack([np.cos(np.deg2rad(th) if params["degrees"] else th),
+                                                np.sin(np.deg2rad(th) if params["degrees"] else th)],
+                                               axis=-1), "close")]
+
+
+OPS = [SimplexSkeleton(), BoundaryArcOps(), MixedCausal(), Coords(), AffineCoords(), Distance(), OriginTo(), TvOriginTo(), UnitTangent(),
        PointAlong(), SegmentCtor(), PolygonEdges(), CircleParameters(), SphereParameters(),
        FixedPoints(), Eigenvector(), Sl2Irrep(), Sl2ToSo21(), HoroArc()]
 OP = {o.name: o for o in OPS}
